@@ -63,6 +63,8 @@ structure OutFunc where
   ops : List Op
   id : Nat := 0                           -- FunctionId
   marks : List (Nat × Nat) := []          -- raw location map of the `Emit` visitor
+  localMap : List (Nat × Nat) := []       -- LocalId ↦ emitted local index
+  usedLocals : List Nat := []             -- `cx.locals[func]`: the locals the body mentions
   deriving Repr
 
 structure OutCode where
@@ -135,7 +137,7 @@ def emitCode (c : InCode) (pfs : List ParsedFunc) : Option OutCode :=
     let (decls, lmap) := emitLocals f.args tyOf used
     let maps : IdMaps := { funcs := funcMap, types := tyMap, locals := lmap, identity := ["t", "g", "m", "d", "e"] }
     match emitBodyMarks maps ar 0, assoc tyMap f.ty with
-    | some (ops, marks), some t => some (⟨t, decls, ops, f.id, marks⟩ : OutFunc)
+    | some (ops, marks), some t => some (⟨t, decls, ops, f.id, marks, lmap, used⟩ : OutFunc)
     | _, _ => none
   outs.map fun fs => ⟨sortedTy.map (·.2), fs, sorted.map (fun p => p.1.id - c.importedFuncs)⟩
 
